@@ -133,7 +133,7 @@ static void check_traj_case(TrajCase const &c, Result &r, std::string const &pre
   place(*px, VALS[c.word[0]]);
   px->set_prefixes(prefix + "a");
   int rc = px->config(conf);
-  if (rc != 0) { fprintf(stderr, "HARNESS-ERROR: traj config rejected: %s\n", px->errtxt.c_str()); exit(2); }
+  if (rc != 0) { fprintf(stderr, "HARNESS-ERROR: traj config rejected: %s\n", px->errtxt.c_str()); exit(3); }
   std::vector<StepRec> recs;
   int run = 0;
   long L = c.word.size();
@@ -160,19 +160,19 @@ static void check_traj_case(TrajCase const &c, Result &r, std::string const &pre
         px->set_prefixes(prefix + "b");
         files.push_back(prefix + "b.colvars.traj");
         std::string conf2 = conf + (have_e ? E_CONF : "");
-        if (px->config(conf2) != 0) { fprintf(stderr, "HARNESS-ERROR: traj config rejected at restart: %s\n", px->errtxt.c_str()); exit(2); }
+        if (px->config(conf2) != 0) { fprintf(stderr, "HARNESS-ERROR: traj config rejected at restart: %s\n", px->errtxt.c_str()); exit(3); }
         px->queue_state_text(st);
       }
     }
     if (c.addcv > 0 && s == c.addcv && !have_e && s != prev) {
-      if (px->config(E_CONF) != 0) { fprintf(stderr, "HARNESS-ERROR: adding variable e rejected: %s\n", px->errtxt.c_str()); exit(2); }
+      if (px->config(E_CONF) != 0) { fprintf(stderr, "HARNESS-ERROR: adding variable e rejected: %s\n", px->errtxt.c_str()); exit(3); }
       have_e = true;
     }
     place(*px, VALS[c.word[s]]);
     px->fsys[0] = cvm::rvector(0.3 * (s + 1), 0, 0);
     px->fsys[1] = cvm::rvector(-0.7, 0.1 * s, 0);
     rc = px->step(s);
-    if (rc != 0) { fprintf(stderr, "HARNESS-ERROR: traj step error: %s\n", px->errtxt.c_str()); exit(2); }
+    if (rc != 0) { fprintf(stderr, "HARNESS-ERROR: traj step error: %s\n", px->errtxt.c_str()); exit(3); }
     if (cvm::step_absolute() != s) { fprintf(stderr, "HARNESS-ERROR: step number %ld != %ld\n", (long) cvm::step_absolute(), s); exit(2); }
     r.count("transitions");
     colvar *d = px->cv("d"), *dv = px->cv("dv");
@@ -354,11 +354,11 @@ static void check_analysis_word(std::vector<int> const &word, std::vector<RA> co
             std::to_string(acfs[i].len) + "\n corrFuncStride " + std::to_string(acfs[i].stride) + "\n corrFuncOffset " +
             std::to_string(acfs[i].off) + "\n corrFuncNormalize " + onoff(acfs[i].norm) + "\n " + comp +
             " {\n group1 { atomNumbers 1 }\n group2 { atomNumbers 2 }\n }\n}\n";
-  if (px->config(conf) != 0) { fprintf(stderr, "HARNESS-ERROR: analysis config rejected: %s\n", px->errtxt.c_str()); exit(2); }
+  if (px->config(conf) != 0) { fprintf(stderr, "HARNESS-ERROR: analysis config rejected: %s\n", px->errtxt.c_str()); exit(3); }
   long L = word.size();
   for (long s = 0; s < L; s++) {
     place(*px, VALS[word[s]]);
-    if (px->step(s) != 0) { fprintf(stderr, "HARNESS-ERROR: analysis step error: %s\n", px->errtxt.c_str()); exit(2); }
+    if (px->step(s) != 0) { fprintf(stderr, "HARNESS-ERROR: analysis step error: %s\n", px->errtxt.c_str()); exit(3); }
     r.count("transitions");
   }
   px->end_run();
